@@ -2015,6 +2015,7 @@ class World:
         self.files = {}
         self.reads = []
         self.listed = []
+        self.aliases = {}            # path as the program may spell it -> key of the entry in a listing
 
 
 def _world(e):
@@ -2029,7 +2030,9 @@ def _path_key(e, v):
     if isinstance(v, Adt) and v.ty in ('PathBuf', 'Path', 'OsStr'):
         return v.fields[0]
     if isinstance(v, Str) and v.concrete:
-        return v.v
+        w = e.flags.get('world')
+        # a path written by the program (not obtained from a listing): the same file may be known to the model under a listing key
+        return getattr(w, 'aliases', {}).get(v.v, v.v) if w is not None else v.v
     raise Unsupported('path value %r' % (v,))
 
 
